@@ -1,140 +1,334 @@
-"""C04-R20 / C08-R11 — the output stream never cuts a surrogate pair when it flushes a full buffer.
+"""C04-R7 — the output stream's buffer and transcoding loop by interpretation.
 
-XalanOutputStream collects UTF-16 code units and hands them to the transcoder when its buffer is full (512 units for stdout, 8192 for a file).  A transcoder cannot consume
-a high surrogate without its other half: a chunk that ends in one stalls it (before the repair a2570a3: the destination was doubled until the allocation failed).  Where
-the buffer boundary falls depends on everything written before - on the encoding, on indentation, on the output being a file.  XalanOutputStream::write(unit),
-write(units, length), flushFullBuffer and flushBuffer are interpreted with a buffer of four units on texts of up to nine units that contain one or two surrogate pairs at
-every position, written unit by unit and in chunks of 1, 2, 3, 5 and 7 units, followed by flush(): the chunks that reach doWrite() concatenate to the text, none but the
-last ends in a high surrogate, none starts with a low one."""
+XalanOutputStream::write(const XalanDOMChar*, n), write(XalanDOMChar), flushBuffer, doWrite and transcode are interpreted on every sequence of writes (bounded)
+over a small buffer, with a model transcoder that turns the i-th UTF-16 unit into w(i) bytes (w from a table of width patterns, 1..4 bytes) and, like the real
+ones, converts as many whole units as fit into the space it is given.  What reaches writeData must be exactly the bytes of every unit written, once, in order
+- whatever the buffer fill, the first size estimate and the number of retries.  The UTF-16 pass-through is covered the same way.
+Nothing here runs the library: the bodies come from the parsed program."""
 import itertools
 from ..build import AnalysisBroken
-from ..mast import Unsupported, callee, strip_casts
-from ..facts import NS
-from ..omach import OMachine, Obj, Vec, It, Fault
+from ..mast import Unsupported, callee, strip_casts, pp, _Return
+from ..facts import NS, short
 from . import common
+from .c10_lists import VecMachine, Vec, It
 
-HI, LO = 0xD83D, 0xDE00
 
-
-class Guard(Obj):
+class Fault(Exception):
     pass
 
 
-class SWorld:
-    def __init__(self, facts):
-        self.facts = facts
-        self.depth = 0; self.calls = 0; self.max_calls = 4000
-        self.chunks = []
+class Guard:
+    def __init__(self, vec):
+        self.vec = vec
 
-    def tables(self, q):
-        return None
 
-    def glob(self, name):
-        return ('GLOBAL', name.split('::')[-1])
+class SMach(VecMachine):
+    def __init__(self, world, env):
+        VecMachine.__init__(self, world.facts, env)
+        self.world = world
+        self.call_hook = self.hook2
+        self.fuel = 4000
+        self.cleanups = []
 
-    def allow(self, body, c):
-        n = (body.get('fq') or '').split('::')[-1]
-        return body['file'].endswith(('PlatformSupport/XalanOutputStream.cpp', 'PlatformSupport/XalanOutputStream.hpp')) and n in ('write', 'flushBuffer', 'flushFullBuffer', 'flush')
+    # scope exit: CollectionClearGuard
+    def exec(self, s):
+        if s['k'] == 'Compound':
+            mark = len(self.cleanups)
+            try:
+                for c in s['c']:
+                    self.exec(c)
+            finally:
+                for g in reversed(self.cleanups[mark:]):
+                    g.vec.items[:] = []
+                del self.cleanups[mark:]
+            return
+        if s['k'] == 'Decl':
+            for v in s['vars']:
+                if v.get('init') is not None:
+                    val = self.ev(v['init'])
+                    if isinstance(val, Guard):
+                        self.cleanups.append(val)
+                    self.env[v['id']] = val
+            return
+        return super().exec(s)
 
-    def destructor(self, o):
-        if isinstance(o, Guard):
-            return lambda g: g.fields['vec'].items.clear()
-        return None
+    def deref(self, v):
+        if isinstance(v, It):
+            if not (0 <= v.i < len(v.vec.items)):
+                raise Fault('read at position %d of a buffer of %d' % (v.i, len(v.vec.items)))
+            return v.vec.items[v.i]
+        return v
 
-    def hook(self, m, c):
+    def ev(self, e):
+        k = e['k']
+        if k == 'Un' and e['op'] == '*':
+            return self.deref(self.ev(e['e']))
+        if k == 'Un' and e['op'] == '&':
+            t = strip_casts(e['e'])
+            if t.get('k') == 'OpCall' and t.get('op') == '[]':
+                v, i = self.ev(t['args'][0]), int(self.ev(t['args'][1]))
+                if isinstance(v, Vec):
+                    return It(v, i)
+            if t.get('k') == 'Un' and t['op'] == '*':
+                return self.ev(t['e'])
+            if t.get('k') == 'OpCall' and t.get('op') == '*':
+                return self.ev(t['args'][0])
+            return self.ev(t)
+        if k == 'Bin' and e['op'] in ('+=', '-='):
+            t = strip_casts(e['lhs'])
+            a = self.ev(t)
+            if isinstance(a, It):
+                b = int(self.ev(e['rhs']))
+                v = It(a.vec, a.i + (b if e['op'] == '+=' else -b))
+                self.assign(t, v)
+                return v
+        if k == 'Bin' and e['op'] == '-' and 'unsigned' in (e.get('ty') or ''):
+            a, b = self.ev(e['lhs']), self.ev(e['rhs'])
+            if isinstance(a, int) and isinstance(b, int):
+                if a - b < 0:
+                    raise Fault('unsigned length wraps (%d - %d)' % (a, b))
+                return a - b
+            if isinstance(a, It):
+                return self.itop('-', a, b)
+            raise Unsupported('subtraction of %r and %r' % (a, b))
+        if k == 'Bin' and e['op'] == '-=':
+            pass
+        return super().ev(e)
+
+    def this_env(self):
+        return {k: v for k, v in self.env.items() if isinstance(k, str) and k.startswith('.')}
+
+    def call_this(self, a, c):
+        w = self.world
+        args = [self.ev(x) for x in c.get('args', [])]
+        env = {p['id']: v for p, v in zip(a['params'], args)}
+        te = self.this_env()
+        env.update(te)
+        w.depth += 1
+        if w.depth > 8:
+            raise Unsupported('call depth')
+        try:
+            sub = SMach(w, env)
+            sub.fuel = self.fuel
+            r = sub.call(a['body'])
+            self.fuel = sub.fuel
+            for k in te:
+                self.env[k] = sub.env[k]
+            w.interpreted.add(short(a.get('q') or c.get('fn') or '?'))
+            return r
+        finally:
+            w.depth -= 1
+
+    def hook2(self, m, c):
+        w = self.world
         k = c['k']
         n = c.get('n') or callee(c).split('::')[-1]
-        a = c.get('args', [])
-        if k == 'Ctor' and 'CollectionClearGuard' in (c.get('cls') or ''):
-            v = m.ev(a[0])
-            if not isinstance(v, Vec):
-                raise Unsupported('CollectionClearGuard on %r' % (v,))
-            return Guard('guard', {'vec': v})
-        if n == 'doWrite' and len(a) == 2:
-            p, ln = m.ev(a[0]), int(m.ev(a[1]))
-            if isinstance(p, It):
-                self.chunks.append(list(p.vec.items[p.i:p.i + ln]))
-                return 0
-            raise Unsupported('doWrite(%r)' % (p,))
-        if n == 'doFlush':
-            return 0
-        return NotImplemented
-
-
-def run_rule(res, facts, tier, rid='C04-R20'):
-    r = res.rule(rid, 'XalanOutputStream (write(unit), write(units, length), flushFullBuffer, flushBuffer) interpreted with a buffer of 4 units on texts with surrogate pairs at every '
-                 'position, written unit by unit and in chunks of 1-7 units, then flushed: what reaches the transcoder concatenates to the text, and no chunk but the last ends in a '
-                 'high surrogate or starts with a low one', floor=300)
-
-    def one(name, pred):
-        c = [x for x in facts.asts(name, must=False) if x.get('body') is not None and pred(x)]
-        if len(c) != 1:
-            raise AnalysisBroken('%s: %d bodies' % (name, len(c)))
-        return c[0]
-    wunit = one('XalanOutputStream::write', lambda x: len(x['params']) == 1 and (x['params'][0].get('ty') or '').strip() in ('char16_t', 'xalanc_1_12::XalanDOMChar', 'XalanDOMChar'))
-    wbuf = one('XalanOutputStream::write', lambda x: len(x['params']) == 2 and 'char16_t' in (x['params'][0].get('ty') or ''))
-    flush = one('XalanOutputStream::flush', lambda x: len(x['params']) == 0)
-    kfields = {f['n'] for f in (facts.K.get(NS + 'XalanOutputStream') or {}).get('fields', [])}
-    w = SWorld(facts)
-    texts = set()
-    for n in range(0, 8):
-        t = [0x61] * n + [HI, LO]
-        texts.add(tuple(t + [0x62]))
-        texts.add(tuple(t))
-        for k2 in range(0, 4):
-            texts.add(tuple(t + [0x62] * k2 + [HI, LO, 0x63]))
-    modes = ['unit'] + [('chunk', s) for s in (1, 2, 3, 5, 7)] + [('chunk', 12)]
-    reported = {}
-    for text in sorted(texts):
-        for mode in modes:
-            this = Obj(NS + 'XalanOutputStream', {'m_buffer': Vec([]), 'm_bufferSize': 4, 'm_writeAsUTF16': 0, 'm_transcoder': 1})
-            for f in kfields:
-                this.fields.setdefault(f, 0)
-            w.chunks = []
-            site = 'text %s written %s' % (' '.join('%04X' % u for u in text), 'unit by unit' if mode == 'unit' else 'in chunks of %d units' % mode[1])
-            try:
-                if mode == 'unit':
-                    for u in text:
-                        w.calls = 0
-                        m = OMachine(w, {}, this); m.fuel = 5000
-                        m.run_body(wunit, [u], this)
+        cls = c.get('cls') or ''
+        if n == '__assert_fail':
+            raise Fault('assertion fails: ' + (pp(c['args'][0])[:100] if c.get('args') else ''))
+        if k == 'Ctor':
+            if 'CollectionClearGuard' in cls:
+                return Guard(self.ev(c['args'][0]))
+            if 'XalanDOMString' in cls or 'Exception' in cls:
+                return 'OBJ'
+            if len(c.get('args', [])) == 1:
+                return self.ev(c['args'][0])
+        if k == 'MCall':
+            o = strip_casts(c.get('obj'))
+            if n == 'transcode' and 'Transcoder' in cls:
+                return w.transcoder(self, c)
+            if n == 'writeData':
+                p, ln = self.ev(c['args'][0]), int(self.ev(c['args'][1]))
+                if not isinstance(p, It):
+                    raise Fault('writeData from %r' % (p,))
+                if p.vec.kind == 'units':
+                    if ln % 2:
+                        raise Fault('an odd number of bytes of UTF-16 data')
+                    units = p.vec.items[p.i:p.i + ln // 2]
+                    if p.i < 0 or p.i + ln // 2 > len(p.vec.items):
+                        raise Fault('writeData reads beyond the buffer')
+                    for u in units:
+                        w.sink.extend([(u, 0), (u, 1)])
                 else:
-                    src = Vec(list(text))
-                    i = 0
-                    while i < len(text):
-                        ln = min(mode[1], len(text) - i)
-                        w.calls = 0
-                        m = OMachine(w, {}, this); m.fuel = 5000
-                        m.run_body(wbuf, [It(src, i), ln], this)
-                        i += ln
-                w.calls = 0
-                m = OMachine(w, {}, this); m.fuel = 5000
-                m.run_body(flush, [], this)
-            except Fault as f:
-                r.violation('output stream: fault', '%s: %s' % (site, f), common.file_line(wbuf)); continue
-            except Unsupported as u:
-                raise AnalysisBroken('XalanOutputStream outside the interpreted subset (%s): %s' % (site, u))
-            flat = [u for ch in w.chunks for u in ch]
-            bad = None
-            if flat != list(text):
-                bad = ('what reaches the transcoder is not the text', 'the chunks are %s' % [' '.join('%04X' % u for u in ch) for ch in w.chunks])
-            else:
-                for ci, ch in enumerate(w.chunks):
-                    if ch and 0xD800 <= ch[-1] < 0xDC00 and ci != len(w.chunks) - 1:
-                        bad = ('a chunk ends in a high surrogate', 'chunk %d of %d is %s: the transcoder cannot consume the last unit without its other half' %
-                               (ci + 1, len(w.chunks), ' '.join('%04X' % u for u in ch))); break
-                    if ch and 0xDC00 <= ch[0] < 0xE000:
-                        bad = ('a chunk starts with a low surrogate', 'chunk %d of %d is %s' % (ci + 1, len(w.chunks), ' '.join('%04X' % u for u in ch))); break
-            if bad:
-                reported[bad[0]] = reported.get(bad[0], 0) + 1
-                if reported[bad[0]] <= 2:
-                    r.violation('output stream: %s' % bad[0], '%s (buffer of 4 units): %s' % (site, bad[1]), common.file_line(wbuf))
+                    if p.i < 0 or p.i + ln > len(p.vec.items):
+                        raise Fault('writeData reads beyond the transcoding buffer (%d bytes from %d of %d)' % (ln, p.i, len(p.vec.items)))
+                    w.sink.extend(p.vec.items[p.i:p.i + ln])
+                return 0
+            if n == 'getMemoryManager':
+                return 'MM'
+            if o is None or o.get('k') == 'This':
+                a = w.facts.ast(c['usr']) if c.get('usr') else None
+                if a is not None and a.get('body') is not None and not c.get('virt'):
+                    return self.call_this(a, c)
+            ov = self.ev(c['obj']) if c.get('obj') is not None else None
+            if isinstance(ov, Vec):
+                if n == 'resize':
+                    sz = int(self.ev(c['args'][0]))
+                    if sz < 0:
+                        raise Fault('resize to a negative size')
+                    if sz > 4096:
+                        raise Fault('destination grows without bound (resize %d)' % sz)
+                    if sz < len(ov.items):
+                        del ov.items[sz:]
+                    else:
+                        ov.items.extend([None] * (sz - len(ov.items)))
+                    return 0
+                if n == 'insert' and len(c['args']) == 3:
+                    at, b, e2 = (self.ev(x) for x in c['args'])
+                    if not (isinstance(at, It) and at.vec is ov and isinstance(b, It) and isinstance(e2, It) and b.vec is e2.vec):
+                        raise Unsupported('range insert operands')
+                    if not (0 <= b.i <= e2.i <= len(b.vec.items)):
+                        raise Fault('range insert reads outside the source (%d..%d of %d)' % (b.i, e2.i, len(b.vec.items)))
+                    ov.items[at.i:at.i] = b.vec.items[b.i:e2.i]
+                    return It(ov, at.i)
+                if n == 'clear':
+                    ov.items[:] = []
+                    return 0
+        if k == 'Call' and n == 'TranscodeToLocalCodePage':
+            raise Unsupported('local code page branch')
+        return VecMachine.hook(self, m, c)
+
+
+class World:
+    def __init__(self, facts, widths, bufsize, utf16):
+        self.facts = facts
+        self.OK = facts.enumconst.get(NS + 'XalanTranscodingServices::OK')
+        if self.OK is None:
+            raise AnalysisBroken('XalanTranscodingServices::OK not found')
+        self.widths = widths
+        self.sink = []
+        self.depth = 0
+        self.interpreted = set()
+        self.calls = 0
+        self.state = {'.m_buffer': self.vec('units'), '.m_bufferSize': bufsize, '.m_transcodingBuffer': self.vec('bytes'), '.m_transcoder': (0 if utf16 else 'TRANSCODER'),
+                      '.m_writeAsUTF16': int(utf16), '.m_throwTranscodeException': 1, '.m_transcoderBlockSize': 16}
+
+    @staticmethod
+    def vec(kind, items=None):
+        v = Vec(items or [])
+        v.kind = kind
+        return v
+
+    def transcoder(self, m, c):
+        """XalanOutputTranscoder::transcode(src, srcLen, dst, dstLen, &eaten, &filled): whole units only, as many as fit"""
+        src, n, dst, room = (m.ev(x) for x in c['args'][:4])
+        self.calls += 1
+        if self.calls > 64:
+            raise Fault('the transcoding loop does not terminate')
+        if not isinstance(src, It) or src.vec.kind != 'units' or not isinstance(dst, It) or dst.vec.kind != 'bytes':
+            raise Fault('transcode operands: %r %r' % (src, dst))
+        n, room = int(n), int(room)
+        if src.i < 0 or src.i + n > len(src.vec.items):
+            raise Fault('the transcoder is given %d units from position %d of a block of %d' % (n, src.i, len(src.vec.items)))
+        if dst.i < 0 or dst.i + room > len(dst.vec.items):
+            raise Fault('the transcoder is given %d bytes of room at %d in a destination of %d' % (room, dst.i, len(dst.vec.items)))
+        eaten = filled = 0
+        while eaten < n:
+            u = src.vec.items[src.i + eaten]
+            wd = self.widths[u % len(self.widths)]
+            if filled + wd > room:
+                break
+            for b in range(wd):
+                dst.vec.items[dst.i + filled + b] = (u, b)
+            filled += wd
+            eaten += 1
+        for x, v in ((c['args'][4], eaten), (c['args'][5], filled)):
+            t = strip_casts(x)
+            if t.get('k') != 'Ref':
+                raise Unsupported('transcode out-parameter ' + pp(x))
+            m.env[t['id']] = v
+        return self.OK
+
+
+WIDTHS = ((1,), (2,), (3,), (4,), (1, 3), (3, 1, 1, 4), (4, 4, 1), (2, 1))
+
+
+def write_plans(maxunits, maxchunk):
+    """sequences of writes: ('s', k) a block of k units, ('c',) one unit"""
+    out = []
+
+    def go(plan, used):
+        if plan:
+            out.append(plan)
+        if used >= maxunits or len(plan) >= 4:
+            return
+        go(plan + (('c',),), used + 1)
+        for k in range(1, maxchunk + 1):
+            if used + k <= maxunits:
+                go(plan + (('s', k),), used + k)
+    go((), 0)
+    return out
+
+
+def run_rule(res, facts, tier):
+    r = res.rule('C04-R7', 'XalanOutputStream write / flushBuffer / doWrite / transcode interpreted on every bounded sequence of block and single-unit writes over a 3-unit buffer, with a '
+                 'model transcoder of 1..4 bytes per unit that converts what fits: the bytes handed to writeData are those of every unit written, exactly once, in order '
+                 '(also on the UTF-16 pass-through)', floor=1500)
+    def pick(name, pred):
+        c = [a for a in facts.asts('XalanOutputStream::' + name, must=False) if a.get('body') is not None and pred(a)]
+        if len(c) != 1:
+            raise AnalysisBroken('XalanOutputStream::%s: %d bodies' % (name, len(c)))
+        return c[0]
+    wblock = pick('write', lambda a: len(a['params']) == 2 and 'char16_t' in a['params'][0]['ty'])
+    wchar = pick('write', lambda a: len(a['params']) == 1 and a['params'][0]['ty'].replace('xalanc_1_12::', '') in ('XalanDOMChar', 'char16_t'))
+    flush = pick('flushBuffer', lambda a: True)
+    pick('transcode', lambda a: len(a['params']) == 3)
+    pick('doWrite', lambda a: True)
+    plans = write_plans(9 if tier == 'thorough' else 7, 5)
+    reported = {}
+    interpreted = set()
+    for utf16 in (False, True):
+        for widths in (WIDTHS if not utf16 else ((2,),)):
+            for plan in plans:
+                w = World(facts, widths, 3, utf16)
+                counter = 0
+                expect = []
+                site = '%s, widths %s: %s' % ('UTF-16 pass-through' if utf16 else 'transcoder', widths,
+                                             ' '.join('write(%d units)' % p[1] if p[0] == 's' else 'write(unit)' for p in plan))
+                fault = None
+                try:
+                    for p in plan:
+                        env = dict(w.state)
+                        if p[0] == 's':
+                            units = list(range(counter, counter + p[1])); counter += p[1]
+                            src = World.vec('units', units)
+                            env[wblock['params'][0]['id']] = It(src, 0)
+                            env[wblock['params'][1]['id']] = p[1]
+                            body = wblock['body']
+                        else:
+                            units = [counter]; counter += 1
+                            env[wchar['params'][0]['id']] = units[0]
+                            body = wchar['body']
+                        expect.extend(units)
+                        mm = SMach(w, env)
+                        mm.call(body)
+                        for k in w.state:
+                            w.state[k] = mm.env[k]
+                    mm = SMach(w, dict(w.state))
+                    mm.call(flush['body'])
+                except Fault as f:
+                    fault = str(f)
+                except Unsupported as u:
+                    raise AnalysisBroken('XalanOutputStream outside the interpreted subset on %s: %s' % (site, u))
+                interpreted |= w.interpreted
+                want = []
+                for u in expect:
+                    wd = 2 if utf16 else widths[u % len(widths)]
+                    want.extend((u, b) for b in range(wd))
+                if fault is None and w.sink == want:
+                    r.ok(site, '%d bytes' % len(want))
+                    continue
+                if fault is None:
+                    i = next((j for j in range(min(len(want), len(w.sink))) if want[j] != w.sink[j]), min(len(want), len(w.sink)))
+                    got = w.sink[i] if i < len(w.sink) else None
+                    fault = 'byte %d of the output is %s, expected %s' % (
+                        i, 'missing' if got is None else ('unset' if got is None else 'byte %d of unit %d' % (got[1], got[0])) if got else 'an unset byte',
+                        'the end of the output' if i >= len(want) else 'byte %d of unit %d' % (want[i][1], want[i][0]))
+                key = ('utf16' if utf16 else 'transcoder')
+                reported[key] = reported.get(key, 0) + 1
+                if reported[key] <= 2:
+                    r.violation(site, fault, 'src/xalanc/PlatformSupport/XalanOutputStream.cpp')
                 else:
                     r.instances += 1
-            else:
-                r.ok(site, '%d chunk(s)' % len(w.chunks))
+    r.note('interpreted bodies: %s' % sorted(interpreted))
     return r
-
-
-def run_c08_rule(res, facts, tier):
-    return run_rule(res, facts, tier, 'C08-R11')
